@@ -59,3 +59,22 @@ package stgutg
 //@ loop offset invariant wf (offset int, PDUSessionResourceSetupRequestTransfer []byte): ngap38413.TransferWF(PDUSessionResourceSetupRequestTransfer, offset)
 //@ loop offset invariant find (offset int, PDUSessionResourceSetupRequestTransfer []byte): ngap38413.TransferFind139(PDUSessionResourceSetupRequestTransfer, offset) == ngap38413.TransferFind139(PDUSessionResourceSetupRequestTransfer, 3)
 //@ loop offset invariant range (offset int, PDUSessionResourceSetupRequestTransfer []byte): offset < len(PDUSessionResourceSetupRequestTransfer)
+
+// ---- C18: mode selection from the argument vector ----
+// Traffic mode with no argument, test mode with "-t" only, nothing else starts a procedure.
+//@ func GetMode
+//@ prop C18
+//@ shape os.Args 2
+//@ behavior argc0
+//@ shape args 0
+//@ ensures none: result == 0
+//@ behavior argc1
+//@ shape args 1
+//@ ensures traffic: result == 1
+//@ behavior argc2
+//@ shape args 2
+//@ ensures test: vc.Imp(args[1] == "-t", result == 2)
+//@ ensures other: vc.Imp(args[1] != "-t", result == 0)
+//@ behavior argc3
+//@ shape args 3
+//@ ensures none: result == 0
